@@ -70,6 +70,8 @@ def fault_case(draw):
     spec['fault'] = {'kind': kind, 'p': p}
     spec['reduction'] = draw(st.booleans())
     spec['max_iter'] = draw(st.sampled_from(CAPS))
+    # a tolerance set on the solver object overrides the block's; exactly 0.0 means "iterate to an exact fixed point"
+    spec['tol_param'] = draw(st.sampled_from([None, None, None, 0.0, 1e-3]))
     spec['cert']['family'] = 'fault:' + kind
     return spec
 
@@ -91,6 +93,8 @@ def solve_with_probe(spec, maxtime=None, trace_step=None):
     es.AddFunction('probe', probe)
     if spec['max_iter'] is not None:
         es.MaxIterations = spec['max_iter']
+    if spec.get('tol_param') is not None:
+        es.ParameterErrorTolerance = spec['tol_param']
     if trace_step is not None:
         es.TraceStep = trace_step
     try:
@@ -109,7 +113,6 @@ def run_fault(spec):
     T = spec['maxtime']
     if outcome == 'ok':
         s2 = dict(spec)
-        s2['tol_param'] = None
         # validity of the returned values (C02 oracle); probe(v, k) = v
         c02_spec = dict(s2)
         c02_spec['eqs'] = [[n, r, kd] for n, r, kd in spec['eqs']]
